@@ -260,5 +260,36 @@ k("K109", "C10", "client/inflight.go", "\t\t\t\treturn rows.Metadata.LastContinu
 k("K110", "C10", "client/inflight.go", "\t\tif isLastFrame(f) {\n\t\t\tr.stopTimeout()\n\t\t\tr.close(nil)\n\t\t} else {\n\t\t\tr.resetTimeout()\n\t\t}", "\t\tr.stopTimeout()\n\t\tr.close(nil)",
   "request-delivery:", "every page completes the request")
 
+# ---- C15 / C16
+k("K55", "C15", "client/client.go", "\toutgoing.Header.Flags = outgoing.Header.Flags.Remove(primitive.HeaderFlagCompressed)\n", "\toutgoing.Header.Flags.Remove(primitive.HeaderFlagCompressed)\n",
+  "flag-clear:(*client.CqlClientConnection).writeSegment", "result of Remove discarded on the client side")
+k("K56", "C15", "client/client.go", "\t\tpayloadAccumulator: &payloadAccumulator{\n\t\t\tframeCodec: frame.NewRawCodec(), // without compression\n\t\t},\n\t}\n\tconnection.ctx, connection.cancel = context.WithCancel(ctx)\n\tconnection.inFlightHandler", "\t}\n\tconnection.ctx, connection.cancel = context.WithCancel(ctx)\n\tconnection.inFlightHandler",
+  "field-init:CqlClientConnection.payloadAccumulator", "accumulator never created")
+k("K111", "C15", "client/client.go", "func (a *payloadAccumulator) reset() {\n\ta.targetLength = 0\n\ta.accumulatedData = nil\n}", "func (a *payloadAccumulator) reset() {\n\ta.accumulatedData = a.accumulatedData[:0]\n}",
+  "accumulator:payloadAccumulator.reset clears", "reset keeps the stale target length (seeded C15-A)")
+k("K112", "C15", "primitive/constants.go", "func (v ProtocolVersion) SupportsModernFramingLayout() bool {\n\treturn v >= ProtocolVersion5 && v != ProtocolVersionDse1 && v != ProtocolVersionDse2\n}", "func (v ProtocolVersion) SupportsModernFramingLayout() bool {\n\treturn v >= ProtocolVersion5 && v != ProtocolVersionDse1\n}",
+  "modern-switch:SupportsModernFramingLayout@D2", "DSE v2 treated as a segment-framing version (seeded C15-B)")
+k("K113", "C15", "client/server.go", "\tif !c.modernLayout &&\n\t\toutgoing.Header.Version.SupportsModernFramingLayout() &&\n\t\t(isReady(outgoing) || isAuthenticate(outgoing)) {", "\tif !c.modernLayout &&\n\t\toutgoing.Header.Version.SupportsModernFramingLayout() {",
+  "modern-switch:CqlServerConnection.maybeSwitchToModernLayout", "server switches framing on any frame")
+k("K114", "C15", "client/client.go", "\tfor payloadReader.Len() > 0 {\n\t\tif abort = c.readFrame(payloadReader); abort {\n\t\t\tbreak\n\t\t}\n\t}\n\treturn abort\n}\n\nfunc (c *CqlClientConnection) addMultiSegmentPayload", "\tif payloadReader.Len() > 0 {\n\t\tabort = c.readFrame(payloadReader)\n\t}\n\treturn abort\n}\n\nfunc (c *CqlClientConnection) addMultiSegmentPayload",
+  "accumulator:(*client.CqlClientConnection).readSelfContainedSegment drain", "only the first envelope of a segment is read")
+k("K57", "C16", "client/inflight.go", "func (r *inFlightRequest) resetTimeout() {", "func (r inFlightRequest) resetTimeout() {",
+  "value-receiver:", "value receiver on a method that restarts the timer")
+k2("K58", "C16", [("client/client.go", "\t\tclose(outgoing)\n\t\tclose(events)\n", "\t\tclose(outgoing)\n\t\t_ = events\n"),
+  ("client/client.go", "\t\tlog.Debug().Err(err).Msgf(\"%v: already closed\", c)\n\t}\n\treturn err\n}\n\nfunc (c *CqlClientConnection) abort()", "\t\tlog.Debug().Err(err).Msgf(\"%v: already closed\", c)\n\t}\n\tif ch := c.EventChannel(); ch != nil {\n\t\tclose(c.events)\n\t}\n\treturn err\n}\n\nfunc (c *CqlClientConnection) abort()")],
+  "close-once:", "close outside the won-CAS branch")
+k("K59", "C16", "client/client.go", "\t\t\tif source, err := c.waitForIncomingData(); err != nil {\n\t\t\t\tabort = c.reportConnectionFailure(err, true)\n\t\t\t} else if c.modernLayout {", "\t\t\tif source, err := c.waitForIncomingData(); err != nil {\n\t\t\t\tif c.reportConnectionFailure(err, true) {\n\t\t\t\t\tc.abort()\n\t\t\t\t\treturn\n\t\t\t\t}\n\t\t\t} else if c.modernLayout {",
+  "waitgroup:", "goroutine aborts and returns before Done")
+k("K60", "C16", "client/inflight.go", "\t\t\tinFlight.close(fmt.Errorf(\"%v: handler closed\", h))", "\t\t\tinFlight.close(nil)",
+  "pending-error:", "pending requests completed without an error")
+k("K115", "C16", "client/inflight.go", "func (r *inFlightRequest) resetTimeout() {\n\tr.stopTimeout()\n\tr.startTimeout()\n}", "func (r *inFlightRequest) resetTimeout() {\n\tr.stopTimeout()\n\tif r.timeoutCtx.Err() == nil {\n\t\tr.startTimeout()\n\t}\n}",
+  "timeout-restart:", "timer restarted only if the cancelled context has no error (seeded C16-A)")
+k("K116", "C16", "client/server.go", "\t\tc.cancel()\n\t\terr = c.conn.Close()\n\t\tincoming := c.incoming", "\t\tc.cancel()\n\t\tif err = c.conn.Close(); err != nil {\n\t\t\treturn fmt.Errorf(\"%v: error closing: %w\", c, err)\n\t\t}\n\t\tincoming := c.incoming",
+  "cleanup-complete:CqlServerConnection.Close", "Close returns early when the socket close fails (seeded C16-B)")
+k("K117", "C16", "client/connection.go", "\t\t\tif holder.conn != nil {\n\t\t\t\tif err := holder.conn.Close(); err != nil {\n\t\t\t\t\tlog.Error().Err(err).Msg(err.Error())\n\t\t\t\t}\n\t\t\t}", "\t\t\tif err := holder.conn.Close(); err != nil {\n\t\t\t\tlog.Error().Err(err).Msg(err.Error())\n\t\t\t}",
+  "field-init:connectionHolder.conn", "nil connection of a pending accept closed")
+k("K118", "C16", "client/server.go", "func (c *CqlServerConnection) Send(f *frame.Frame) error {\n\tif c.IsClosed() {\n\t\treturn fmt.Errorf(\"%v: connection closed\", c)\n\t}\n", "func (c *CqlServerConnection) Send(f *frame.Frame) error {\n",
+  "closed-test:CqlServerConnection.Send", "send without the closed-flag test")
+
 json.dump(C, open(os.path.join(os.path.dirname(os.path.abspath(__file__)), "controls.json"), "w"), indent=1)
 print(len(C), "controls")
